@@ -145,7 +145,6 @@ func (t *Transfer) inIxfr(q *Msg, c chan *Envelope) {
 	var serial uint32 // The first serial seen is the current server serial
 	axfr := true
 	n := 0
-	qser := q.Ns[0].(*SOA).Serial
 	defer func() {
 		// First close the connection, then the channel. This allows functions blocked on
 		// the channel to assume that the connection is closed and no further operations are
@@ -153,6 +152,17 @@ func (t *Transfer) inIxfr(q *Msg, c chan *Envelope) {
 		t.Close()
 		close(c)
 	}()
+	// The serial of the requester's copy of the zone is in the SOA of the authority section.
+	if len(q.Ns) == 0 {
+		c <- &Envelope{nil, ErrSoa}
+		return
+	}
+	qsoa, ok := q.Ns[0].(*SOA)
+	if !ok {
+		c <- &Envelope{nil, ErrSoa}
+		return
+	}
+	qser := qsoa.Serial
 	timeout := dnsTimeout
 	if t.ReadTimeout != 0 {
 		timeout = t.ReadTimeout
